@@ -23,6 +23,7 @@ def standard_flow(run, units, deps, vmon, profiles=("debug",), tag="s", nshards=
     """compile + run + merge; returns samples_by_unit."""
     index = {u.name: u for u in units}
     all_samples = {}
+    run.cur_deps = deps.cfg
     for pn in profiles:
         prof = shards.PROFILES[pn]
         bins = shards.compile_units(run, units, deps, prof, vmon, tag, extra_head=extra_head, nshards=nshards)
